@@ -277,6 +277,7 @@ def rewrite_asserts(text):
 
 
 RULES_APPLIED = {}
+DROP_STATICS = set()   # names of `static` items the Verus front end rejected (shared state: reported by C19's frame scan)
 
 
 def count(rule, n=1):
@@ -328,6 +329,22 @@ def apply_rules(text, relpath):
         else:
             # expression position: leave it; the front end will reject it (C19 closed world)
             text = text[:m.start()] + 'vf_output_macro_in_expression_position!(' + text[o + 1:]
+    # R9: a `static` item the front end rejects (interior mutability, lazy initialisation) is dropped from the image so
+    # that the other obligations can be decided; functions that use it then fail to resolve and are left outside the
+    # image (forced external_body, witness-decided); the C19 frame scan reports the item itself
+    for name in sorted(DROP_STATICS):
+        while True:
+            bb, _ = rs.blank(text)
+            m = re.search(r'(?m)^[ \t]*(pub(\([a-z]+\))?\s+)?static\s+(mut\s+)?%s\b' % re.escape(name), bb)
+            if not m:
+                break
+            k = m.end()
+            while k < len(bb) and bb[k] != ';':
+                if bb[k] in '([{':
+                    k = rs.match_bracket(bb, k)
+                k += 1
+            text = text[:m.start()] + text[k + 1:]
+            count('R9')
     # R1
     text = sub('R1', r'\|_\|', '|_vf|', text)
     # R2
@@ -336,6 +353,9 @@ def apply_rules(text, relpath):
     text = sub('R2', r'\bu(16|32|64)::from_be_bytes\(', r'vf_u\1_from_be_bytes(', text)
     text = sub('R2', r'(\.vf_borrow\(\)\s*)\.try_into\(\)', r'\1.vf_try_into()', text)
     text = sub('R2', r'(\])\s*\.try_into\(\)', r'\1.vf_try_into()', text)
+    if relpath.endswith('slice_reader.rs'):
+        # the slice->array conversion inside the macro `read_buf_unchecked!`
+        text = sub('R2', r'\bresult\.try_into\(\)\.unwrap_unchecked\(\)', 'result.vf_try_into().unwrap_unchecked()', text)
     # R3
     n0 = len(re.findall(r'\bassert!\s*\(', rs.blank(text)[0]))
     text = rewrite_asserts(text)
@@ -862,8 +882,10 @@ def read_contract_sources(vf_dir):
     return srcs
 
 
-def build_image(repo_src='/repo/src', vf_dir=HERE, canary=False, extra_sidecars=None, skip_body=(), force_external=()):
+def build_image(repo_src='/repo/src', vf_dir=HERE, canary=False, extra_sidecars=None, skip_body=(), force_external=(), drop_statics=()):
     RULES_APPLIED.clear()
+    DROP_STATICS.clear()
+    DROP_STATICS.update(drop_statics)
     import spec_table
     srcs = read_contract_sources(vf_dir)
     srcs.append(('<spec_table>', spec_table.generated_sidecar()))
@@ -882,6 +904,7 @@ def build_image(repo_src='/repo/src', vf_dir=HERE, canary=False, extra_sidecars=
     maps['external_bodies'] = g.ext_bodies
     maps['lost_anchors'] = g.lost
     maps['forced_external'] = g.forced
+    maps['dropped_statics'] = sorted(DROP_STATICS)
     maps['contracts'] = {k: {'src': c.src, 'external_body': c.external_body,
                              'n_requires': len(c.requires), 'n_ensures': len(c.ensures),
                              'safety': c.safety} for k, c in contracts.items()}
